@@ -9,6 +9,8 @@ import (
 	"os/exec"
 	"strings"
 	"sync"
+	"time"
+	_ "time/tzdata"
 
 	"verif/core"
 	"github.com/flowmatters/openwater-core/data"
@@ -67,8 +69,34 @@ func ExecuteC(r *MRun, mode string) (*MOut, bool, error) {
 // arrays in caller-owned (C) memory, the way libopenwater's callers hold them, the others on Go-backed arrays. The
 // choice depends on the case index only, so the random draws of the case are the same either way.
 func ExecuteFor(c *core.Ctx, r *MRun) (*MOut, error) {
-	if c == nil || c.Idx%6 != 5 || r.PadCells != 0 || r.PadT != 0 || len(r.Surplus) != 0 {
+	if c == nil {
 		return Execute(r)
+	}
+	if c.Idx%6 != 5 || r.PadCells != 0 || r.PadT != 0 || len(r.Surplus) != 0 {
+		// Go-backed arrays; afterwards the caller's forcing data must be what the caller put there (every balance and
+		// identity of the properties is stated against the series the caller supplied, and the caller uses them again)
+		p, err := Prepare(r)
+		if err != nil {
+			return nil, err
+		}
+		if c.Idx%5 == 2 {
+			// a second model of the same type, alive at the same time and given other parameters after this one was set
+			// up and before it runs (two catchments configured first, then run): objects of one type are independent
+			rr := core.NewRand(uint64(c.Idx), 0x7369626c)
+			ops := GenPSet(r.Model, rr, genOpts{widthClass: 1 + rr.Intn(13)})
+			sib := &MRun{Model: r.Model, N: 1, T: 1, Sets: []PSet{ops}, Inputs: [][][]float64{GenInputs(r.Model, rr, 1, ops)}}
+			if _, err := PrepareOn(NewModel(r.Model), sib); err == nil {
+				c.Tag("objects:sibling-parameterised-in-between")
+			}
+		}
+		o := p.Exec()
+		if len(p.Desc.Inputs) > 0 && r.T > 0 {
+			after := From3(p.Inputs, len(r.Inputs), len(p.Desc.Inputs), r.T)
+			if d, bad := diffBits3(r.Inputs, after); bad {
+				c.Violate("caller-inputs-modified", r.Model, "Run changed the caller's input array: "+d+" (before vs after the call)")
+			}
+		}
+		return o, nil
 	}
 	c.Tag("arrays:caller-c-memory")
 	o, _, err := ExecuteC(r, []string{"guard-after", "guard-before", "malloc"}[(c.Idx/6)%3])
@@ -178,4 +206,46 @@ func HostileHistory(c *core.Ctx, model string, sets []PSet) {
 	}
 	c.Tag("history:many-parameterisations-before")
 	c.Count("runs_made_as_hostile_history", float64(n+len(sets)))
+}
+
+// WithOtherEnvironment runs f in a process environment that differs from the harness's in things no property mentions:
+// local time zone (zones with daylight saving, far east and far west of Greenwich), locale variables, working directory.
+// Results of the library may not depend on any of it. Everything is restored afterwards. Returns a label of the variant.
+func WithOtherEnvironment(k int, f func()) string {
+	zones := []string{"America/New_York", "Australia/Sydney", "Europe/London", "Pacific/Kiritimati", "Pacific/Pago_Pago", "America/Santiago"}
+	zone := zones[k%len(zones)]
+	oldLocal := time.Local
+	if loc, err := time.LoadLocation(zone); err == nil {
+		time.Local = loc
+	}
+	saved := map[string]*string{}
+	for _, kv := range [][2]string{{"TZ", zone}, {"LANG", "de_DE.UTF-8"}, {"LC_ALL", "de_DE.UTF-8"}, {"LC_NUMERIC", "de_DE.UTF-8"}} {
+		if v, ok := os.LookupEnv(kv[0]); ok {
+			vv := v
+			saved[kv[0]] = &vv
+		} else {
+			saved[kv[0]] = nil
+		}
+		os.Setenv(kv[0], kv[1])
+	}
+	wd, _ := os.Getwd()
+	if td, err := os.MkdirTemp("", "verif-cwd-"); err == nil {
+		os.Chdir(td)
+		defer os.RemoveAll(td)
+	}
+	defer func() {
+		time.Local = oldLocal
+		for k, v := range saved {
+			if v == nil {
+				os.Unsetenv(k)
+			} else {
+				os.Setenv(k, *v)
+			}
+		}
+		if wd != "" {
+			os.Chdir(wd)
+		}
+	}()
+	f()
+	return zone
 }
